@@ -191,9 +191,17 @@ def seg_push(chk):
 
 
 def seg_qpull(chk):
-    """QPlugin.rpc_qpull -> workq.pop: segment A (entry to return or to the yield in
-    AsyncResult.get), segment B (resume with a value to return), segment B' (resume with
-    GreenletExit because the client vanished, through handle_client's finally: shutdown)"""
+    """QPlugin.rpc_qpull -> workq.pop, three groups of obligations:
+    segment A (entry -> return, or -> the yield in AsyncResult.get), segment B (resume with
+    a value -> return), segment B' (resume with GreenletExit because the client vanished ->
+    pop's handler -> handle_client's finally: shutdown()).  Segments B/B' start from an
+    arbitrary state satisfying Inv plus the rely of a suspended puller; the code before the
+    yield is executed only to bind the locals (with empty queues, to keep it short)."""
+    for which in ("A", "B", "B'"):
+        _seg_qpull(chk, which)
+
+
+def _seg_qpull(chk, which):
     ex = new_explorer()
     fn = ex.function(QSERVE, "QPlugin.rpc_qpull")
     sh = ex.function(QSERVE, "QPlugin.shutdown")
@@ -204,30 +212,34 @@ def seg_qpull(chk):
     def harness(I):
         S, w = start(I, ex)
         plugin, k = make_plugin(I, ex, w)
+        if which != "A":
+            # only the locals matter for the later segments: take the short way to the yield
+            I.assume(Forall(["chan"], lambda c: z3.Not(z3.Select(S["q_has"], c)), "no_queues"))
         if I.decide(I.sym_bool("channels_none").z):
             channels = None
         else:
             channels = qm.Channels(I.fresh("asked@chan", A(Z, Bo)), I.sym_bool("asked_empty").z)
-            # `empty` flag and the membership array describe the same list
             mem, emp = channels.member, channels.empty
             I.assume(Forall(["chan"], lambda x: z3.Implies(emp, z3.Not(z3.Select(mem, x))), "empty_list_has_no_member"))
         I.ghost["segment"] = "A"
 
         def on_yield(I2, a):
-            # ---- end of segment A: the invariant must hold at the scheduling point
-            finish(I2, w, "segA.inv")
-            I2.oblige("segA.registered_as_unready_waiter",
-                      z3.And(z3.Select(st(I2)["W"], a.z), z3.Not(z3.Select(st(I2)["a_ready"], a.z))))
+            if which == "A":
+                # ---- end of segment A: the invariant must hold at the scheduling point
+                finish(I2, w, "segA.inv")
+                I2.oblige("segA.registered_as_unready_waiter",
+                          z3.And(z3.Select(st(I2)["W"], a.z), z3.Not(z3.Select(st(I2)["a_ready"], a.z))))
+                raise qm.PathCut()
             old = st(I2)
-            # ---- arbitrary other segments run: any state satisfying Inv, plus the rely of a
+            # ---- arbitrary other segments ran: any state satisfying Inv, plus the rely of a
             # suspended puller: its waiter entry is still registered and was not re-targeted
             S1 = qm.State(I2, "s1_")
             I2.ghost["S"] = S1
-            # facts about the pre-yield state are of no use any more (dropping hypotheses is sound)
             sc = I2.ghost.get("schemas")
             if sc is not None:
-                sc.items = []
+                sc.items = []          # facts about the pre-yield state are of no use any more
             I2.assumed_foralls = {}
+            I2.vcs.clear()             # obligations of segment A belong to the other group
             qm.assume_inv(I2, S1)
             w.fields["count"] = SInt(S1["count"])
             I2.assume(z3.Select(S1["W"], a.z))
@@ -237,16 +249,17 @@ def seg_qpull(chk):
             # running_jobs of this connection is touched only by this connection's own requests
             I2.assume(z3.Select(S1["R_has"], k) == z3.Select(old["R_has"], k))
             I2.assume(z3.Select(S1["R_val"], k) == z3.Select(old["R_val"], k))
-            if I2.decide(I2.sym_bool("killed_while_blocked").z):
-                I2.ghost["segment"] = "B'"
+            I2.ghost["segment"] = which
+            if which == "B'":
                 raise qm.SymRaise(ExcVal(GREENLET_EXIT, []))
-            I2.ghost["segment"] = "B"
             # contract of AsyncResult.get: returns once the result is ready, with its value
             I2.assume(z3.Select(S1["a_ready"], a.z))
             return SRef("job", z3.Select(S1["a_value"], a.z))
         I.ghost["on_yield"] = on_yield
         out = ex.run_function(I, fn, [plugin], {"channels": channels})
         seg = I.ghost["segment"]
+        if seg != which:
+            raise qm.PathCut()          # (non-blocking path of a B harness)
         if seg == "B'":
             I.oblige("segB'.only_GreenletExit", out.raised("GreenletExit"), meta=note_exc(out))
             # handle_client's finally runs shutdown() in the same atomic segment; afterwards the
@@ -260,8 +273,8 @@ def seg_qpull(chk):
         I.oblige(f"seg{seg}.no_raise", out.returned, meta=note_exc(out))
         finish(I, w, f"seg{seg}.inv")
 
-    chk.prove("qserve.QPlugin.rpc_qpull", harness, ex, targets=[fn, ex.function(JOBS, "workq.pop"),
-              ex.function(JOBS, "workq._preenall"), ex.function(JOBS, "workq._preenjobq")], replay=replay_history)
+    chk.prove(f"qserve.QPlugin.rpc_qpull[{which}]", harness, ex, targets=[fn, ex.function(JOBS, "workq.pop")],
+              replay=replay_history)
 
 
 def release_running(I, k, i):
